@@ -25,6 +25,10 @@ def cases(tier, seed):
             for nm in names:
                 rank = r.choice([1, 2, 2, 3, 4])
                 shape = [r.randrange(1, 5) for _ in range(rank)]
+                if r.random() < 0.06:
+                    # ten axes and more: `dim10` sorts before `dim2`
+                    rank = r.choice([10, 11, 12])
+                    shape = [r.choice([1, 2, 2, 3]) if k in (0, 1, rank - 1) else r.choice([1, 1, 2]) for k in range(rank)]
                 dims = []
                 for k in range(rank):
                     kind = r.choice(["int", "float"])
